@@ -239,7 +239,7 @@ class CallMixin:
                 v = ListV("fam", idx=idx, lo=Rat.const(0), hi=self.length(v, frame, node), elem=elem)
             if not isinstance(v.elem, Num):
                 raise Unmodelled("sum of non-numeric family at %s" % frame.loc(node))
-            if v.idx.id not in v.elem.r.deps():
+            if not poly.mentions(v.elem.r, v.idx):
                 return Num(v.elem.r * (v.hi - v.lo))
             ci, cb = canon_bound(v.idx, v.elem.r)
             return Num(Rat.atom(poly.T.app("fn", "SUM", (Rat.atom(ci), v.lo, v.hi, cb))))
@@ -349,7 +349,7 @@ class CallMixin:
             if d.startswith("numpy") and isinstance(a0, (TupV, ListV)) and self.as_items(a0, frame, node) is not None:
                 return TupV(list(self.as_items(a0, frame, node)), is_array=True)
             if isinstance(a0, ListV) and a0.kind == "lit":
-                return ListV("lit", items=list(a0.items))
+                return TupV(list(a0.items)) if d == "builtins.tuple" else ListV("lit", items=list(a0.items))
             if isinstance(a0, TupV):
                 return ListV("lit", items=list(a0.items)) if d == "builtins.list" else a0
             if isinstance(a0, Num):
@@ -364,7 +364,8 @@ class CallMixin:
                     total *= max(len(c), 1)
                 if total <= 64:
                     return ListV("lit", items=[TupV(list(t)) for t in _it.product(*cols)])
-            return ListV("opaque", path="product(%s)" % ", ".join(key_str(val_key(self.force(a, frame, node))) for a in args), ty=Ty("tuple", [ANY] * len(args)))
+            return ListV("opaque", path="product(%s)" % ", ".join(key_str(val_key(self.force(a, frame, node))) for a in args), ty=Ty("tuple", [ANY] * len(args)),
+                         factors=[self.force(a, frame, node) for a in args])
         if d in ("builtins.enumerate", "builtins.zip"):
             seqs = [self.force(a, frame, node) for a in args]
             if all(self.as_items(q, frame, node) is not None for q in seqs if not isinstance(q, ObjV)) and not any(isinstance(q, ObjV) for q in seqs):
